@@ -62,6 +62,141 @@ def ref_greg_abs(ordinal, year):
     return add(ordinal, mul(K(365), y1), floor(div(y1, K(4))), ('un', 'Neg', floor(div(y1, K(100)))), floor(div(y1, K(400))))
 
 
+# ------------------------------------------------------------------------------------------------ concrete evaluation of closed forms
+def _rd(y, m, d):
+    """proleptic Gregorian day number (R.D., 0001-01-01 = 1) in integer arithmetic"""
+    import datetime
+    return datetime.date(y, m, d).toordinal()
+
+
+def _witness_dates():
+    import calendar
+    out = []
+    for y in (1, 4, 100, 400, 622, 1582, 1600, 1700, 1900, 2000, 2023, 2024, 2100, 2400, 9999):
+        for m in range(1, 13):
+            out.append((y, m, 1))
+            out.append((y, m, calendar.monthrange(y, m)[1]))
+        out.append((y, 2, 28))
+        out.append((y, 7, 19))
+    return out
+
+
+def _date_env(date, y, m, d):
+    import datetime
+    dt = datetime.date(y, m, d)
+    o = dt.timetuple().tm_yday
+    vals = {'year': y, 'month': m, 'day': d, 'ordinal': o, 'month0': m - 1, 'day0': d - 1, 'ordinal0': o - 1,
+            'leap_year': (y % 4 == 0 and y % 100 != 0) or y % 400 == 0}
+    return (date, vals)
+
+
+_INT_T = ('i8', 'i16', 'i32', 'i64', 'i128', 'isize', 'u8', 'u16', 'u32', 'u64', 'u128', 'usize')
+
+
+def _ceval(t, env, memo=None):
+    """value of a closed-form term under an assignment of the date's calendar fields; None where the term is not closed"""
+    if memo is None:
+        memo = {}
+    k = id(t)
+    if k in memo:
+        return memo[k]
+    r = _ceval1(t, env, memo)
+    memo[k] = r
+    return r
+
+
+def _ceval1(t, env, memo):
+    import math
+    if not isinstance(t, tuple) or not t:
+        return None
+    h = t[0]
+    if h == 'c':
+        return t[2] if isinstance(t[2], (int, float, bool)) else None
+    if h == 'cast':
+        v = _ceval(t[2], env, memo)
+        if v is None or isinstance(v, bool):
+            return None
+        if t[1] in ('f64', 'f32'):
+            return float(v)
+        if t[1] in _INT_T:
+            if isinstance(v, float) and (math.isnan(v) or math.isinf(v)):
+                return None
+            v = int(v)
+            if t[1].startswith('u') and v < 0:
+                return None         # wrapping / saturating casts of negative values: not needed for dates of the common era
+            return v
+        return None
+    if h == 'ite':
+        c = _ceval(t[1], env, memo)
+        if not isinstance(c, bool):
+            return None
+        return _ceval(t[2] if c else t[3], env, memo)
+    if h == 'un':
+        v = _ceval(t[2], env, memo)
+        if v is None:
+            return None
+        if t[1] == 'Neg' and not isinstance(v, bool):
+            return -v
+        if t[1] == 'Not' and isinstance(v, bool):
+            return not v
+        return None
+    if h == 'bin':
+        a, b = _ceval(t[2], env, memo), _ceval(t[3], env, memo)
+        if a is None or b is None:
+            return None
+        op = t[1]
+        if op.endswith('Unchecked'):
+            op = op[:-9]
+        bothint = isinstance(a, int) and isinstance(b, int) and not isinstance(a, bool) and not isinstance(b, bool)
+        try:
+            if op == 'Add':
+                return a + b
+            if op == 'Sub':
+                return a - b
+            if op == 'Mul':
+                return a * b
+            if op == 'Div':
+                if bothint:
+                    return None if b == 0 else int(math.trunc(a / b)) if abs(a) < 2 ** 52 else None
+                return a / b
+            if op == 'Rem':
+                if bothint:
+                    return None if b == 0 else a - b * int(math.trunc(a / b))
+                return math.fmod(a, b)
+            if op in ('Lt', 'Le', 'Gt', 'Ge', 'Eq', 'Ne'):
+                return {'Lt': a < b, 'Le': a <= b, 'Gt': a > b, 'Ge': a >= b, 'Eq': a == b, 'Ne': a != b}[op]
+            if op in ('BitAnd', 'BitOr') and isinstance(a, bool) and isinstance(b, bool):
+                return (a and b) if op == 'BitAnd' else (a or b)
+        except (ZeroDivisionError, OverflowError, TypeError, ValueError):
+            return None
+        return None
+    if h == 'app':
+        name = last_seg(t[1]) if '::' in t[1] else t[1]
+        date, vals = env
+        if name in vals and t[2] == (date,):
+            return vals[name]
+        args = [_ceval(x, env, memo) for x in t[2]]
+        if any(x is None for x in args):
+            return None
+        try:
+            if name == 'floor' and len(args) == 1:
+                return float(math.floor(args[0]))
+            if name == 'ceil' and len(args) == 1:
+                return float(math.ceil(args[0]))
+            if name == 'trunc' and len(args) == 1:
+                return float(math.trunc(args[0]))
+            if name in ('abs', 'unsigned_abs') and len(args) == 1:
+                return abs(args[0])
+            if name == 'rem_euclid' and len(args) == 2 and args[1] != 0:
+                return args[0] % abs(args[1])
+            if name == 'div_euclid' and len(args) == 2 and args[1] != 0 and all(isinstance(x, int) for x in args):
+                q = (args[0] - args[0] % abs(args[1])) // args[1]
+                return q
+        except (OverflowError, ValueError, TypeError):
+            return None
+    return None
+
+
 def strip(t):
     while isinstance(t, tuple) and t and t[0] == 'cast':
         t = t[2]
@@ -234,6 +369,14 @@ def run(ctx, rep):
             rems.append((strip(x[2]), const_f64(x[3]), x, 'rem'))
         if x and x[0] == 'app' and (x[1] == 'rem_euclid' or x[1].endswith('::rem_euclid')) and len(x[2]) == 2 and const_f64(x[2][1]) is not None:
             rems.append((strip(x[2][0]), const_f64(x[2][1]), x, 'rem_euclid'))
+    if len(rems) > 1:
+        # remainders inside the dividend of another one (a Gregorian leap test `y % 4` in a hand-written day of the year) are not the weekday's
+        inner = set()
+        for r_ in rems:
+            for y_ in subterms(r_[0]):
+                if y_ is not r_[2] and any(y_ == o[2] for o in rems):
+                    inner.add(y_)
+        rems = [r_ for r_ in rems if r_[2] not in inner]
     if len(rems) != 1:
         rep.ob('R17.8', 'weekday-form', None, f'weekday is not a remainder of the day number: {show(W, maxd=5)[:120]}')
     else:
@@ -265,7 +408,26 @@ def run(ctx, rep):
                'day number = ordinal + 365(y-1) + floor((y-1)/4) - floor((y-1)/100) + floor((y-1)/400)' if v == 'equal' else
                f'Gregorian day number is {F.show_poly(cn.cf(G), show)[:260]}')
     else:
-        rep.ob('R17.1', 'gregorian-day-number', None, f'day number does not read year()/ordinal() of the date once: {show(G, maxd=4)[:120]}')
+        # second reading, independent of the form: the day-number term is a closed form over the date's calendar fields (year, month, day,
+        # ordinal); evaluated on witness dates - month starts and ends of common, leap, century and 400-year years - it must be the
+        # proleptic Gregorian day number
+        bad, und, n = [], None, 0
+        for (y_, m_, d_) in _witness_dates():
+            v_ = _ceval(G, _date_env(date, y_, m_, d_))
+            if v_ is None:
+                und = (y_, m_, d_)
+                break
+            n += 1
+            if int(v_) != _rd(y_, m_, d_) or v_ != int(v_):
+                bad.append((f'{y_:04d}-{m_:02d}-{d_:02d}', v_, _rd(y_, m_, d_)))
+        if und is not None:
+            rep.ob('R17.1', 'gregorian-day-number', None, f'day number does not read year()/ordinal() of the date once and does not evaluate '
+                   f'on the witness date {und}: {show(G, maxd=4)[:120]}')
+        else:
+            rep.ob('R17.1', 'gregorian-day-number', not bad,
+                   f'hand-written day number equals the proleptic Gregorian day number on {n} witness dates' if not bad else
+                   f'day number is wrong on {len(bad)} of {n} witness dates, first: ' +
+                   ', '.join(f'{a}: {b:g} (calendar: {c})' for a, b, c in bad[:3]))
 
     # ---- year, month terms -------------------------------------------------------------------------------------------
     M = strip(fld[role['month']])
